@@ -12,7 +12,7 @@ new = '''PROPS = {
                                 "coll2::union_find_merge"], ("thorough",))],
     "C02": [("verus", "lat_ord"), ("verus", "lat_wrap"), ("verus", "lat_pair"), ("verus", "lat_dom"),
             ("kani", "vk_lat", ["::changed", "point_u8", "coll::set_merge", "coll::map_merge_option", "coll::map_merge_singleton",
-                                "coll2::vec_union_merge", "coll3::tombstone_set_merge", "dompair_incomparable_keys"], ("quick",)),
+                                "coll2::vec_union_merge", "coll3::tombstone_set_merge", "coll3::tombstone_map_merge_one_entry", "dompair_incomparable_keys"], ("quick",)),
             ("kani", "vk_lat", ["::changed", "coll3::tombstone_set_merge", "coll3::tombstone_map_merge", "dompair_incomparable_keys", "point_u8", "coll::set_merge", "coll::map_merge", "coll2::vec_union_merge",
                                 "coll2::union_find_union", "coll2::union_find_merge"], ("thorough",))],
     "C03": [("verus", "lat_ord"), ("verus", "lat_wrap"), ("verus", "lat_pair"), ("verus", "lat_dom"),
